@@ -566,6 +566,17 @@ def gen_table(rng, tier):
                                    "key": {"row": rk, "col": cs}, "value": tv}
     yield {"fam": "table", "cols": [{"name": "a", "vals": [[2, 0]], "ct": "int"}], "nr": 1, "key": {"bad": 3},
            "value": {"v": "scalar", "x": [2, 0]}}
+    # the row key is a live column of the table itself (defect repaired in /repo: the half-written key was reused)
+    T_, F_ = [1, 0], [1, 1]
+    mcols = [{"name": "m", "vals": [T_, F_, T_], "ct": "bool"}, {"name": "x", "vals": [T_, T_, T_], "ct": "bool"},
+             {"name": "y", "vals": [[2, 0], [2, 2], [2, 0]], "ct": "int"}]
+    icols = [{"name": "i", "vals": [[2, 1], [2, 1], [2, 1]], "ct": "int"}, {"name": "x", "vals": [[2, 0], [2, 2], [2, 0]], "ct": "int"}]
+    for cols, j in ((mcols, 0), (mcols[:2], 0), (mcols[:2][::-1], 1), (icols, 0), (icols[::-1], 1)):
+        names = [c["name"] for c in cols]
+        for colspec in ({"c": "none"}, {"c": "list", "items": names}, {"c": "list", "items": names[::-1]}, {"c": "slice", "a": None, "b": None, "c3": None}):
+            for x in ([1, 1], [2, 1], [2, 2]):
+                yield {"fam": "table", "cols": cols, "nr": 3, "key": {"row": {"k": "selfcol", "j": j}, "col": colspec},
+                       "value": {"v": "scalar", "x": x}}
     # the defect repaired in ff19998 (a later column refuses after an earlier one was written), three canonical shapes
     # (always present)
     two = [{"name": "a", "vals": [[2, 0], [2, 1]], "ct": "int"}, {"name": "b", "vals": [[5, 0], [5, 1]], "ct": "str"}]
@@ -757,7 +768,19 @@ def exec_table(spec):
     if "bad" in ks:
         pykey, wkey = tuple(range(ks["bad"])), {"t": "badTuple"}
     else:
-        pyrow, wrow = build_key(ks["row"], nr)
+        if ks["row"]["k"] == "selfcol":
+            # the row key is one of the table's OWN live columns (a bool column as mask, an int column as positions): it must
+            # select the same rows in every addressed column, also when it is itself among the columns being written
+            col = t.cols()[ks["row"]["j"]]
+            cur = list(col)
+            if cur and all(type(x) is bool for x in cur):
+                pyrow, wrow = col, {"k": "maskVec", "bs": cur}
+            elif cur and all(type(x) is int for x in cur):
+                pyrow, wrow = col, {"k": "idxVec", "is": cur}
+            else:
+                return {"skip": "own column is neither a mask nor a position list"}
+        else:
+            pyrow, wrow = build_key(ks["row"], nr)
         cs = ks["col"]
         c = cs["c"]
         if c == "none":
